@@ -19,6 +19,7 @@ def groups(toks, start):
 
 class Check(PropCheck):
     pid = 'C19'
+    pure_predicate = True
     tol = 1e-9
     rule = ('trees of all shapes (polytomies, unary nodes, two/three-child roots, 1..60 / 1..400 leaves, also after edits leaving removed '
             'slots) with finite non-negative lengths (exact dyadic and inexact), zero-length branches included; layout and rescaled '
